@@ -1,3 +1,524 @@
-//! C02 (stub: no cases yet)
+//! C02 — slice indexing / splitting / chunking (konst::slice::*) vs std.
+//!
+//! families (args)                 fields
+//!   c02.idx   ty len i            get get_mut from from_mut upto upto_mut gfrom gfrom_mut
+//!                                 gupto gupto_mut split split_mut
+//!   c02.range ty len s e          range range_mut grange grange_mut
+//!   c02.arr   ty len N            arr arr_mut chunks rchunks          (std = `-` for N = 0)
+//!   c02.ends  ty len              first last sfirst slast
+//!
+//! Every returned reference is observed as (offset, len) in elements relative to the
+//! argument, computed from the pointers (`e` = empty, `z:len` for zero-sized elements,
+//! `OUTSIDE(..)` when not inside the argument).  `_mut` results are additionally written
+//! through and the backing storage is compared with what the view claims (`!W` on mismatch).
 use crate::common::*;
-pub fn run(_cfg: &Cfg, _out: &mut Out) {}
+use konst::slice as ks;
+use std::collections::BTreeSet;
+use std::panic::{catch_unwind, AssertUnwindSafe};
+
+// ---------------------------------------------------------------- element types
+
+trait Elem: Sized + PartialEq {
+    const NAME: &'static str;
+    fn make(i: usize) -> Self;
+    fn mark(k: u8) -> Self;
+}
+impl Elem for u16 {
+    const NAME: &'static str = "u16";
+    fn make(i: usize) -> Self {
+        100 + i as u16
+    }
+    fn mark(k: u8) -> Self {
+        0xFF00 | k as u16
+    }
+}
+impl Elem for u8 {
+    const NAME: &'static str = "u8";
+    fn make(i: usize) -> Self {
+        i as u8
+    }
+    fn mark(k: u8) -> Self {
+        0xF0 | k
+    }
+}
+impl Elem for u64 {
+    const NAME: &'static str = "u64";
+    fn make(i: usize) -> Self {
+        1000 + i as u64
+    }
+    fn mark(k: u8) -> Self {
+        0xFFFF_FFFF_0000_0000 | k as u64
+    }
+}
+impl Elem for () {
+    const NAME: &'static str = "unit";
+    fn make(_: usize) -> Self {}
+    fn mark(_: u8) -> Self {}
+}
+/// 3 bytes, alignment 1, neither Copy nor Clone
+#[derive(PartialEq)]
+struct S3([u8; 3]);
+impl Elem for S3 {
+    const NAME: &'static str = "s3";
+    fn make(i: usize) -> Self {
+        S3([i as u8, 1, 2])
+    }
+    fn mark(k: u8) -> Self {
+        S3([0xEE, 0xEE, k])
+    }
+}
+
+// ---------------------------------------------------------------- backing storage
+
+/// `len` elements; real storage for sized types, a dangling (valid) slice for `()`
+struct Store<T> {
+    v: Vec<T>,
+    zst_len: usize,
+}
+impl<T: Elem> Store<T> {
+    fn new(len: usize) -> Self {
+        if std::mem::size_of::<T>() == 0 {
+            Store { v: Vec::new(), zst_len: len }
+        } else {
+            Store { v: (0..len).map(T::make).collect(), zst_len: 0 }
+        }
+    }
+    fn shared(&self) -> &[T] {
+        if std::mem::size_of::<T>() == 0 {
+            // SAFETY: T is zero-sized; a dangling aligned pointer is valid for any length
+            unsafe { std::slice::from_raw_parts(std::ptr::NonNull::<T>::dangling().as_ptr(), self.zst_len) }
+        } else {
+            &self.v
+        }
+    }
+    fn excl(&mut self) -> &mut [T] {
+        if std::mem::size_of::<T>() == 0 {
+            // SAFETY: as above
+            unsafe { std::slice::from_raw_parts_mut(std::ptr::NonNull::<T>::dangling().as_ptr(), self.zst_len) }
+        } else {
+            &mut self.v
+        }
+    }
+}
+
+// ---------------------------------------------------------------- observation
+
+fn c(f: impl FnOnce() -> String) -> String {
+    match catch_unwind(AssertUnwindSafe(f)) {
+        Ok(s) => s,
+        Err(_) => "PANIC".to_string(),
+    }
+}
+
+/// (offset, len) of `cnt` items of `unit` elements each starting at `sp`, relative to the
+/// `wlen` elements at `wp`; Ok((off, cnt)) when inside
+fn locate<T>(wp: *const T, wlen: usize, sp: *const T, cnt: usize, unit: usize) -> Result<(usize, usize), String> {
+    let sz = std::mem::size_of::<T>();
+    let w = wp as usize;
+    let s = sp as usize;
+    let span = cnt.checked_mul(unit);
+    if sz == 0 {
+        return Ok((0, cnt));
+    }
+    if s < w || (s - w) % sz != 0 || span.is_none() || ((s - w) / sz).checked_add(span.unwrap()).map_or(true, |e| e > wlen) {
+        return Err(format!("OUTSIDE({}:{})", (s as isize).wrapping_sub(w as isize), cnt));
+    }
+    Ok(((s - w) / sz, cnt))
+}
+fn render<T>(r: &Result<(usize, usize), String>) -> String {
+    match r {
+        Err(s) => s.clone(),
+        Ok((_, 0)) => "e".to_string(),
+        Ok((_, n)) if std::mem::size_of::<T>() == 0 => format!("z:{}", n),
+        Ok((o, n)) => format!("{}:{}", o, n),
+    }
+}
+fn vw<T>(whole: &[T], sub: &[T]) -> String {
+    if sub.is_empty() {
+        return "e".to_string();
+    }
+    render::<T>(&locate(whole.as_ptr(), whole.len(), sub.as_ptr(), sub.len(), 1))
+}
+fn ve<T>(whole: &[T], x: &T) -> String {
+    vw(whole, std::slice::from_ref(x))
+}
+fn vc<T, const N: usize>(whole: &[T], arrs: &[[T; N]]) -> String {
+    if arrs.is_empty() {
+        return "e".to_string();
+    }
+    render::<T>(&locate(whole.as_ptr(), whole.len(), arrs.as_ptr() as *const T, arrs.len(), N))
+}
+/// a usize argument: decimal when small, big-endian hex bytes (`x8000000000000000`) from
+/// 2^32 on (the shared decimal parser of the glue is quadratic in the number of digits)
+fn ux(i: usize) -> String {
+    if i < (1usize << 32) { i.to_string() } else { format!("x{:016x}", i) }
+}
+fn pair(a: String, b: String) -> String {
+    format!("({},{})", a, b)
+}
+
+/// Call `f` on a fresh `&mut [T]` of `len` elements; `f` returns a shape value and the
+/// returned `&mut` pieces. Each piece is located, then written through with its own marker,
+/// and afterwards the storage is compared with what the views claim.
+fn with_mut<T: Elem, X>(len: usize, f: impl for<'a> FnOnce(&'a mut [T]) -> (X, Vec<&'a mut [T]>)) -> (X, Vec<String>) {
+    let mut st = Store::<T>::new(len);
+    let zst = std::mem::size_of::<T>() == 0;
+    let (x, locs) = {
+        let s = st.excl();
+        let wp = s.as_ptr();
+        let wlen = s.len();
+        let (x, parts) = f(s);
+        let mut locs = Vec::new();
+        for (k, p) in parts.into_iter().enumerate() {
+            let l = if p.is_empty() { Ok((0, 0)) } else { locate(wp, wlen, p.as_ptr(), p.len(), 1) };
+            if !zst && l.is_ok() {
+                for e in p.iter_mut() {
+                    *e = T::mark(k as u8 + 1);
+                }
+            }
+            locs.push(l);
+        }
+        (x, locs)
+    };
+    let mut good = true;
+    if !zst {
+        let mut expect: Vec<T> = (0..len).map(T::make).collect();
+        for (k, l) in locs.iter().enumerate() {
+            if let Ok((o, n)) = l {
+                for j in *o..*o + *n {
+                    expect[j] = T::mark(k as u8 + 1);
+                }
+            }
+        }
+        good = expect == st.v;
+    }
+    let strs = locs.iter().map(|l| if good { render::<T>(l) } else { format!("{}!W", render::<T>(l)) }).collect();
+    (x, strs)
+}
+fn mut_one<T: Elem>(len: usize, f: impl for<'a> FnOnce(&'a mut [T]) -> &'a mut [T]) -> String {
+    c(|| with_mut::<T, ()>(len, |s| ((), vec![f(s)])).1.remove(0))
+}
+fn mut_opt<T: Elem>(len: usize, f: impl for<'a> FnOnce(&'a mut [T]) -> Option<&'a mut [T]>) -> String {
+    c(|| {
+        let (some, v) = with_mut::<T, bool>(len, |s| match f(s) {
+            Some(r) => (true, vec![r]),
+            None => (false, vec![]),
+        });
+        if some { format!("S({})", v[0]) } else { "N".to_string() }
+    })
+}
+fn mut_pair<T: Elem>(len: usize, f: impl for<'a> FnOnce(&'a mut [T]) -> (&'a mut [T], &'a mut [T])) -> String {
+    c(|| {
+        let (_, v) = with_mut::<T, ()>(len, |s| {
+            let (a, b) = f(s);
+            ((), vec![a, b])
+        });
+        pair(v[0].clone(), v[1].clone())
+    })
+}
+fn mut_opt_pair<T: Elem>(len: usize, f: impl for<'a> FnOnce(&'a mut [T]) -> Option<(&'a mut [T], &'a mut [T])>) -> String {
+    c(|| {
+        let (some, v) = with_mut::<T, bool>(len, |s| match f(s) {
+            Some((a, b)) => (true, vec![a, b]),
+            None => (false, vec![]),
+        });
+        if some { format!("S({})", pair(v[0].clone(), v[1].clone())) } else { "N".to_string() }
+    })
+}
+
+// ---------------------------------------------------------------- families
+
+fn tag_idx(len: usize, i: usize) -> &'static str {
+    if i < len {
+        "in"
+    } else if i == len {
+        "edge"
+    } else if i < (1usize << 32) {
+        "out"
+    } else {
+        "huge"
+    }
+}
+
+fn one_idx<T: Elem>(out: &mut Out, len: usize, i: usize) {
+    let st = Store::<T>::new(len);
+    let w: &[T] = st.shared();
+    let imp = fields(&[
+        ("get", c(|| show_opt(ks::get(w, i), |x| ve(w, x)))),
+        ("get_mut", mut_opt::<T>(len, |s| ks::get_mut(s, i).map(std::slice::from_mut))),
+        ("from", c(|| vw(w, ks::slice_from(w, i)))),
+        ("from_mut", mut_one::<T>(len, |s| ks::slice_from_mut(s, i))),
+        ("upto", c(|| vw(w, ks::slice_up_to(w, i)))),
+        ("upto_mut", mut_one::<T>(len, |s| ks::slice_up_to_mut(s, i))),
+        ("gfrom", c(|| show_opt(ks::get_from(w, i), |x| vw(w, x)))),
+        ("gfrom_mut", mut_opt::<T>(len, |s| ks::get_from_mut(s, i))),
+        ("gupto", c(|| show_opt(ks::get_up_to(w, i), |x| vw(w, x)))),
+        ("gupto_mut", mut_opt::<T>(len, |s| ks::get_up_to_mut(s, i))),
+        ("split", c(|| {
+            let (a, b) = ks::split_at(w, i);
+            pair(vw(w, a), vw(w, b))
+        })),
+        ("split_mut", mut_pair::<T>(len, |s| ks::split_at_mut(s, i))),
+    ]);
+    // std: the fallible getters are std's; the clamping ones are std's result when it
+    // exists, otherwise the documented fallback
+    let sd = fields(&[
+        ("get", show_opt(w.get(i), |x| ve(w, x))),
+        ("get_mut", mut_opt::<T>(len, |s| s.get_mut(i).map(std::slice::from_mut))),
+        ("from", vw(w, w.get(i..).unwrap_or(&[]))),
+        ("from_mut", mut_one::<T>(len, |s| if i <= s.len() { s.get_mut(i..).unwrap() } else { &mut [] })),
+        ("upto", vw(w, w.get(..i).unwrap_or(w))),
+        ("upto_mut", mut_one::<T>(len, |s| if i <= s.len() { s.get_mut(..i).unwrap() } else { s })),
+        ("gfrom", show_opt(w.get(i..), |x| vw(w, x))),
+        ("gfrom_mut", mut_opt::<T>(len, |s| s.get_mut(i..))),
+        ("gupto", show_opt(w.get(..i), |x| vw(w, x))),
+        ("gupto_mut", mut_opt::<T>(len, |s| s.get_mut(..i))),
+        ("split", {
+            let (a, b): (&[T], &[T]) = if i <= w.len() { w.split_at(i) } else { (w, &[]) };
+            pair(vw(w, a), vw(w, b))
+        }),
+        ("split_mut", mut_pair::<T>(len, |s| if i <= s.len() { s.split_at_mut(i) } else { (s, &mut []) })),
+    ]);
+    out.line("c02.idx", &format!("{} {} {}", T::NAME, ux(len), ux(i)), &imp, &sd, tag_idx(len, i));
+}
+
+fn one_range<T: Elem>(out: &mut Out, len: usize, s_: usize, e_: usize) {
+    let st = Store::<T>::new(len);
+    let w: &[T] = st.shared();
+    let imp = fields(&[
+        ("range", c(|| vw(w, ks::slice_range(w, s_, e_)))),
+        ("range_mut", mut_one::<T>(len, |s| ks::slice_range_mut(s, s_, e_))),
+        ("grange", c(|| show_opt(ks::get_range(w, s_, e_), |x| vw(w, x)))),
+        ("grange_mut", mut_opt::<T>(len, |s| ks::get_range_mut(s, s_, e_))),
+    ]);
+    // documented clamp: `end` is clamped to the length, then an impossible range is empty
+    let ec = e_.min(len);
+    let sd = fields(&[
+        ("range", vw(w, w.get(s_..ec).unwrap_or(&[]))),
+        ("range_mut", mut_one::<T>(len, |s| if s_ <= ec { s.get_mut(s_..ec).unwrap() } else { &mut [] })),
+        ("grange", show_opt(w.get(s_..e_), |x| vw(w, x))),
+        ("grange_mut", mut_opt::<T>(len, |s| s.get_mut(s_..e_))),
+    ]);
+    let tag = if s_ <= e_ && e_ <= len {
+        if s_ < e_ { "in" } else { "in-empty" }
+    } else if s_ > e_ {
+        if s_ <= len { "rev" } else { "rev-out" }
+    } else if s_ <= len {
+        "end-out"
+    } else {
+        "both-out"
+    };
+    out.line("c02.range", &format!("{} {} {} {}", T::NAME, ux(len), ux(s_), ux(e_)), &imp, &sd, tag);
+}
+
+fn impl_arr<T: Elem, const N: usize>(w: &[T], len: usize) -> String {
+    fields(&[
+        ("arr", c(|| show_opt(ks::try_into_array::<T, N>(w).ok(), |a| vw(w, &a[..])))),
+        ("arr_mut", mut_opt::<T>(len, |s| ks::try_into_array_mut::<T, N>(s).ok().map(|a| &mut a[..]))),
+        ("chunks", c(|| {
+            let (a, r) = ks::as_chunks::<T, N>(w);
+            pair(vc(w, a), vw(w, r))
+        })),
+        ("rchunks", c(|| {
+            let (r, a) = ks::as_rchunks::<T, N>(w);
+            pair(vw(w, r), vc(w, a))
+        })),
+    ])
+}
+/// N >= 1 only: std's as_chunks::<0> is a post-monomorphisation error
+fn one_arr<T: Elem, const N: usize>(out: &mut Out, len: usize) {
+    let st = Store::<T>::new(len);
+    let w: &[T] = st.shared();
+    let imp = impl_arr::<T, N>(w, len);
+    let sd = fields(&[
+        ("arr", show_opt(<&[T; N]>::try_from(w).ok(), |a| vw(w, &a[..]))),
+        ("arr_mut", mut_opt::<T>(len, |s| <&mut [T; N]>::try_from(s).ok().map(|a| &mut a[..]))),
+        ("chunks", {
+            let (a, r) = w.as_chunks::<N>();
+            pair(vc(w, a), vw(w, r))
+        }),
+        ("rchunks", {
+            let (r, a) = w.as_rchunks::<N>();
+            pair(vw(w, r), vc(w, a))
+        }),
+    ]);
+    let tag = if len == N {
+        "exact"
+    } else if len % N == 0 {
+        "multiple"
+    } else if len > N {
+        "rem"
+    } else {
+        "short"
+    };
+    out.line("c02.arr", &format!("{} {} {}", T::NAME, ux(len), N), &imp, &sd, tag);
+}
+/// N = 0: konst panics (assert!); no std column
+fn one_arr0<T: Elem>(out: &mut Out, len: usize) {
+    let st = Store::<T>::new(len);
+    let w: &[T] = st.shared();
+    let imp = impl_arr::<T, 0>(w, len);
+    out.line("c02.arr", &format!("{} {} 0", T::NAME, ux(len)), &imp, "-", "zero");
+}
+
+fn one_ends<T: Elem>(out: &mut Out, len: usize) {
+    fn elem_rem<'a, T>(o: Option<(&'a mut T, &'a mut [T])>) -> Option<(&'a mut [T], &'a mut [T])> {
+        o.map(|(x, r)| (std::slice::from_mut(x), r))
+    }
+    let imp = fields(&[
+        ("first", mut_opt::<T>(len, |s| ks::first_mut(s).map(std::slice::from_mut))),
+        ("last", mut_opt::<T>(len, |s| ks::last_mut(s).map(std::slice::from_mut))),
+        ("sfirst", mut_opt_pair::<T>(len, |s| elem_rem(ks::split_first_mut(s)))),
+        ("slast", mut_opt_pair::<T>(len, |s| elem_rem(ks::split_last_mut(s)))),
+    ]);
+    let sd = fields(&[
+        ("first", mut_opt::<T>(len, |s| s.first_mut().map(std::slice::from_mut))),
+        ("last", mut_opt::<T>(len, |s| s.last_mut().map(std::slice::from_mut))),
+        ("sfirst", mut_opt_pair::<T>(len, |s| elem_rem(s.split_first_mut()))),
+        ("slast", mut_opt_pair::<T>(len, |s| elem_rem(s.split_last_mut()))),
+    ]);
+    out.line("c02.ends", &format!("{} {}", T::NAME, ux(len)), &imp, &sd, if len == 0 { "empty" } else if len == 1 { "one" } else { "many" });
+}
+
+// ---------------------------------------------------------------- generators
+
+const P31: usize = 1 << 31;
+const P32: usize = 1 << 32;
+const P61: usize = 1 << 61;
+const P62: usize = 1 << 62;
+const P63: usize = 1 << 63;
+
+/// the index values of the property's quantifier for a slice of `len` elements:
+/// everything up to len+2, and the neighbourhoods of the powers of two at which
+/// `as isize`, `* size_of::<T>()` or `len - index` wrap
+fn indices(len: usize, full: bool) -> Vec<usize> {
+    let mut s = BTreeSet::new();
+    let small = if len > 64 { 2 } else { len };
+    for i in 0..=small + 2 {
+        s.insert(i);
+        s.insert(len.wrapping_add(i));
+        s.insert(len.wrapping_sub(i));
+    }
+    for b in [P63, 0usize] {
+        for d in 0..=2usize {
+            s.insert(b.wrapping_add(d));
+            s.insert(b.wrapping_sub(d));
+        }
+        s.insert(b.wrapping_add(len));
+        s.insert(b.wrapping_sub(len));
+    }
+    if full {
+        for b in [P31, P32, P61, P62] {
+            for d in 0..=1usize {
+                s.insert(b.wrapping_add(d));
+                s.insert(b.wrapping_sub(d));
+            }
+            s.insert(b.wrapping_add(len));
+        }
+        // byte offsets around isize::MAX / usize::MAX for 3-byte elements
+        for b in [(P63 - 1) / 3, usize::MAX / 3] {
+            s.insert(b);
+            s.insert(b + 1);
+            s.insert(b + 2);
+        }
+        for d in 1..=small {
+            s.insert(P63 + d);
+            s.insert(P61 + d);
+        }
+    }
+    s.into_iter().collect()
+}
+
+fn sweep_ty<T: Elem>(out: &mut Out, lens: &[usize], cfg: &Cfg) {
+    for &len in lens {
+        one_ends::<T>(out, len);
+        for i in indices(len, true) {
+            one_idx::<T>(out, len, i);
+        }
+        let ix = indices(len, true);
+        for &a in &ix {
+            for &b in &ix {
+                one_range::<T>(out, len, a, b);
+            }
+        }
+    }
+}
+
+macro_rules! arr_all_n {
+    ($T:ty, $out:expr, $len:expr) => {{
+        one_arr0::<$T>($out, $len);
+        one_arr::<$T, 1>($out, $len);
+        one_arr::<$T, 2>($out, $len);
+        one_arr::<$T, 3>($out, $len);
+        one_arr::<$T, 4>($out, $len);
+        one_arr::<$T, 5>($out, $len);
+        one_arr::<$T, 7>($out, $len);
+        one_arr::<$T, 8>($out, $len);
+        one_arr::<$T, 10>($out, $len);
+        one_arr::<$T, 16>($out, $len);
+    }};
+}
+fn sweep_arr<T: Elem>(out: &mut Out, lens: &[usize]) {
+    for &len in lens {
+        arr_all_n!(T, out, len);
+    }
+}
+
+/// lengths only a zero-sized element type can have
+const HUGE_LENS: [usize; 7] = [P32, P63 - 1, P63, P63 + 1, usize::MAX - 10, usize::MAX - 1, usize::MAX];
+
+fn random_stream<T: Elem>(out: &mut Out, rng: &mut Rng, n: usize, max_len: usize) {
+    let pick = |rng: &mut Rng, len: usize| -> usize {
+        match rng.below(6) {
+            0 | 1 => rng.below(len as u64 + 3) as usize,
+            2 => *rng.pick(&indices(len, true)),
+            3 => rng.next() as usize,
+            4 => (rng.next() as usize) | P63,
+            _ => usize::MAX - rng.below(len as u64 + 3) as usize,
+        }
+    };
+    for _ in 0..n {
+        let len = rng.below(max_len as u64 + 1) as usize;
+        let a = pick(rng, len);
+        let b = pick(rng, len);
+        one_idx::<T>(out, len, a);
+        one_range::<T>(out, len, a, b);
+    }
+}
+
+pub fn run(cfg: &Cfg, out: &mut Out) {
+    // regression-style witnesses first: the places where the arithmetic of the anchored
+    // code changes regime
+    one_idx::<u16>(out, 8, usize::MAX);
+    one_idx::<u16>(out, 8, P63);
+    one_range::<u16>(out, 8, 5, 3);
+    one_range::<u16>(out, 8, usize::MAX, usize::MAX);
+    one_idx::<()>(out, usize::MAX, P63);
+    one_range::<()>(out, usize::MAX, P63, usize::MAX);
+
+    let max = if cfg.thorough { 20 } else { 8 };
+    let lens: Vec<usize> = (0..=max).collect();
+    sweep_ty::<u16>(out, &lens, cfg);
+    sweep_ty::<()>(out, &lens, cfg);
+    sweep_ty::<S3>(out, &lens, cfg);
+    sweep_ty::<u8>(out, &lens, cfg);
+    sweep_ty::<u64>(out, &lens, cfg);
+    // zero-sized elements: lengths up to usize::MAX
+    sweep_ty::<()>(out, &HUGE_LENS, cfg);
+
+    let amax = if cfg.thorough { 70 } else { 34 };
+    let alens: Vec<usize> = (0..=amax).collect();
+    sweep_arr::<u16>(out, &alens);
+    sweep_arr::<()>(out, &alens);
+    sweep_arr::<S3>(out, &alens);
+    sweep_arr::<u8>(out, &alens);
+    sweep_arr::<u64>(out, &alens);
+    sweep_arr::<()>(out, &HUGE_LENS);
+
+    let mut rng = Rng::new(cfg.seed ^ 0xC02);
+    let n = if cfg.thorough { 20000 } else { 2000 };
+    random_stream::<u16>(out, &mut rng, n, 40);
+    random_stream::<S3>(out, &mut rng, n, 40);
+    random_stream::<u64>(out, &mut rng, n / 2, 40);
+    random_stream::<()>(out, &mut rng, n / 2, 1 << 20);
+}
